@@ -147,6 +147,9 @@ func (x *Exec) callByContract(st *State, fr *Frame, callee *ssa.Function, fc *Fu
 	where := x.P.Pos(instrPos(pos))
 	short := shortCallee(name)
 	ord := x.siteOrdinal(fr.Fn, pos, short)
+	x.batchCtr++
+	x.batch = x.batchCtr
+	defer func() { x.batch = 0 }()
 	// bind formals
 	env := &Env{x: x, st: st, old: st, vars: map[string]*Value{}, pkg: x.pkgOfContract(fc, callee)}
 	var paramNames []string
@@ -206,6 +209,9 @@ func (x *Exec) callByContract(st *State, fr *Frame, callee *ssa.Function, fc *Fu
 		}
 	}
 	for _, bi := range invs {
+		if bi.inv.History {
+			continue
+		}
 		g := x.evalBool(env.with(bi.Binder, bi.val), bi.inv.Expr)
 		x.oblige(st, "pre@"+short+fmt.Sprintf("#%d", ord), "inv_"+bi.inv.Name, bi.inv.Props, g, where, bi.inv.Src)
 	}
@@ -233,6 +239,7 @@ func (x *Exec) callByContract(st *State, fr *Frame, callee *ssa.Function, fc *Fu
 			}
 		}
 	}
+	x.batch = 0
 	old := st.snapshot()
 	// frame: havoc what the callee may modify
 	x.nextBefore = x.nextTerm(st)
@@ -615,7 +622,9 @@ func (x *Exec) slotCall(st *State, fr *Frame, c *ssa.CallCommon, fnv *Value, arg
 		x.setResult(fr, pos, x.tuple(res, sig.Results()))
 		return
 	}
+	x.selfVal = fnv
 	x.callBySlot(st, fr, sc, slot, c.Signature(), args, pos)
+	x.selfVal = nil
 }
 
 func (x *Exec) callBySlot(st *State, fr *Frame, sc *FuncContract, slot string, sig *types.Signature, args []*Value, pos ssa.Instruction) {
@@ -625,6 +634,9 @@ func (x *Exec) callBySlot(st *State, fr *Frame, sc *FuncContract, slot string, s
 		if i < len(args) {
 			env.vars[p.Name] = args[i]
 		}
+	}
+	if x.selfVal != nil {
+		env.vars["self"] = &Value{T: x.refTerm(x.selfVal), Sort: "Int"}
 	}
 	ord := x.siteOrdinal(fr.Fn, pos, "")
 	_ = ord
@@ -642,6 +654,9 @@ func (x *Exec) callBySlot(st *State, fr *Frame, sc *FuncContract, slot string, s
 		}
 	}
 	for _, bi := range invs {
+		if bi.inv.History {
+			continue
+		}
 		x.oblige(st, tag, "inv_"+bi.inv.Name, bi.inv.Props, x.evalBool(env.with(bi.Binder, bi.val), bi.inv.Expr), where, bi.inv.Src)
 	}
 	for i, r := range sc.Requires {
